@@ -31,7 +31,7 @@ func init() {
 		Level: "exploration",
 		Rule: "case = one builder (idx cycles over all tglib.Get* wrappers and ngapTestpacket.Build* functions except the two empty stubs) called after an NG Setup with a random PLMN, " +
 			"with identifiers from the grid {0,1,2^8k-1,2^8k,max,random} (in range) or {max+1,-1,...} (out of range, one argument at a time), NAS-PDU lengths {0,1,127,128,255,256,2047,5000,random}, IPv4 corners. " +
-			"distinct = hash(builder, encoding); non-trivial = always (a builder call with checked arguments)",
+			"PDU session lists of 255 / 256 items (257 refused), optional builder arguments, nil vs empty NAS-PDU; the FIRST builder call of every process uses an address that overlaps the octets in front of it. distinct = hash(builder, encoding); non-trivial = always (a builder call with checked arguments)",
 		Assumptions: []string{
 			"class/procedure and mandatory-IE tables are typed in from TS 38.413 9.2 / 9.4 by hand",
 			"ref/per (independent X.691 decoder over the ngapType schema) and ngap.Decoder must both agree with the arguments",
